@@ -5,7 +5,8 @@ package c15
 // cache, a memo table or a reused buffer keeps state between calls, and an entry point that takes
 // or returns a slice can share that state with its caller.  What the other generators do not do:
 //   - write into a slice golib returned (a caller owns what it is handed) and into the slice it
-//     passed, and then ask again -- with the same input built afresh, and after other inputs;
+//     passed, and then ask again -- with that very slice (another input now), with the same input
+//     built afresh, and after other inputs;
 //   - keep a returned slice untouched while other inputs are evaluated, and read it again later;
 //   - evaluate more distinct inputs of one family than a bounded cache would hold, coming back to
 //     earlier ones (churn).
@@ -19,7 +20,6 @@ package c15
 // return slices), IpParse (ToBytes returns a slice), Bytes (passes the byte string to 8 entry points).
 
 import (
-	"fmt"
 	"math/rand"
 	"sort"
 	"strings"
@@ -55,14 +55,16 @@ func (a *aliasRun) emit(cl call, kind string, extra core.Ev) {
 func fam(cl call) string { return strings.ToLower(cl.ev) }
 
 const (
-	keepLive = iota // hand the slices over and keep them untouched
-	overwrite       // overwrite the returned and the passed slices afterwards, one Scribble event each
-	plain           // the ordinary evaluation (eval: returned slices overwritten after projection)
+	keepLive  = iota // hand the slices over and keep them untouched
+	overwrite        // overwrite the returned and the passed slices afterwards, one Scribble event each
+	plain            // the ordinary evaluation (eval: returned slices overwritten after projection)
 )
 
 // visit evaluates the input of cl, built afresh, and logs the family event.
-func (a *aliasRun) visit(cl call, mode int) {
-	x := cl.fresh()
+func (a *aliasRun) visit(cl call, mode int) { a.visitOn(cl.fresh(), mode) }
+
+// visitOn evaluates x as it is (with the slices it was built on).
+func (a *aliasRun) visitOn(x call, mode int) {
 	var o outs
 	var ret map[string][]byte
 	var passed []byte
@@ -108,6 +110,10 @@ func (a *aliasRun) visit(cl call, mode int) {
 		before := core.Cp(passed)
 		scribble(passed)
 		a.emit(x, "Scribble", core.Ev{"fam": fam(x), "f": "input", "before": before, "after": core.Cp(passed)})
+		// the same slice, passed again: it is another input now
+		if x.onSlice != nil {
+			a.visitOn(x.onSlice(passed), plain)
+		}
 	}
 }
 
@@ -123,6 +129,9 @@ func (a *aliasRun) heldCheck(cl call) {
 	}
 	if len(h.passed) > 0 {
 		o["input"] = core.Cp(h.passed)
+	}
+	if len(o) == 0 {
+		return
 	}
 	a.emit(h.cl, "Held", core.Ev{"fam": fam(h.cl), "outs": o})
 }
@@ -246,5 +255,3 @@ func runChurn(c *core.Ctx, t *core.Trace, gen string, cas int, n int) {
 		}
 	}
 }
-
-var _ = fmt.Sprintf
